@@ -76,6 +76,7 @@ func codabarCheck(c *fw.Ctx, s string) {
 		c.Violation("codabar/accepted-invalid", "text is not start letter, body, stop letter but was accepted", inner, "")
 		return
 	}
+	retainObserve(c, "codabar", o.bc, inner, 3)
 	bits, err := row1D(o.bc)
 	if err != nil {
 		c.Violation("codabar/image", err.Error(), inner, "")
@@ -127,6 +128,7 @@ func twoOfFiveCheck(c *fw.Ctx, s string, interleaved bool) {
 		c.Violation(fmt.Sprintf("2of5/accepted-invalid/interleaved=%v", interleaved), why+" was accepted", inner, "")
 		return
 	}
+	retainObserve(c, "2of5", o.bc, inner, 3)
 	bits, err := row1D(o.bc)
 	if err != nil {
 		c.Violation("2of5/image", err.Error(), inner, "")
